@@ -16,6 +16,17 @@ def run(m):
     line=r.stdout.strip().splitlines()[-1] if r.stdout.strip() else r.stderr[-300:]
     if os.environ.get('PCDUMP'): line+='\n'+r.stderr
     return n,p,line
+tot=det=0; missed=[]
 with cf.ThreadPoolExecutor(j) as ex:
     for n,p,line in ex.map(run,ms):
-        print(n,p,line[:6000],flush=True)
+        verdict='?'
+        try:
+            d=json.loads(line.splitlines()[0])
+            if 'detected' in d:
+                tot+=1
+                if d['detected']: det+=1; verdict='DETECTED'
+                else: missed.append(n); verdict='MISSED'
+            elif 'not_applicable' in d or 'load_error' in d: verdict='N/A'
+        except Exception: pass
+        print(verdict,n,p,line[:6000],flush=True)
+print('SUMMARY run=%d detected=%d missed=%s'%(tot,det,missed))
